@@ -19,6 +19,7 @@ from harness.common import sexp
 from harness.common.ctx import Timeout, time_limit
 
 EXE = "c13_model"
+PROPS = ["Holpy.C13.Props", "Holpy.C13.Props2"]
 
 THEORIES_QUICK = ["logic_base", "logic", "function", "list", "hoare", "nat", "set"]
 THEORIES_THOROUGH = ["logic_base", "logic", "function", "list", "hoare", "nat", "set", "expr", "topology"]
@@ -763,6 +764,9 @@ class Runner:
             self.dead = True
             ok = False
         if ok:
+            keep = getattr(ctx, "adv_states", None)
+            if keep is not None and len(keep) < 60 and self.rng.random() < 0.08:
+                keep.append(copy.copy(target))      # real states for the adversarial primitive stream
             nontriv = len(self.trail) >= 2
             ctx.case((self.goal.ident(), tuple(json.dumps(t["step"], sort_keys=True) + str(t["on_copy"]) for t in self.trail)), nontrivial=nontriv)
         if on_copy:
@@ -1346,6 +1350,67 @@ def mutate_structure(items, rng):
     return items
 
 
+def adversarial_primitives(ctx, recorder):
+    """Direct calls of the structural primitives on copies of real states with ids the methods
+    never pass: cited lines removed, lines that do not exist, citations that are not admissible.
+    The model has to agree with the real ProofState outside the preconditions of the theorems too
+    (this is what ties the counterexample theorems about `remove_line` to the code)."""
+    from kernel.proof import ItemID
+    rng = ctx.rng("adversarial-primitives")
+    states = getattr(ctx, "adv_states", None) or []
+    orig = recorder.orig
+    if not all(k in orig for k in ("add_line_before", "remove_line", "set_line", "replace_id")):
+        return []
+    out = []
+    for st in states:
+        lines = walk(st)
+        if not lines:
+            continue
+        for _ in range(ctx.scale(4, 12)):
+            pos, it = rng.choice(lines)
+            r = rng.random()
+            if r < 0.15:
+                pos = pos[:-1] + (pos[-1] + rng.randint(1, 3),)         # possibly beyond the end
+            elif r < 0.2:
+                pos = pos + (rng.randint(0, 2),)                        # inside a line without subproof?
+            kind = rng.choice(["remove", "remove", "add", "set", "replace"])
+            tgt = copy.copy(st)
+            try:
+                before = recorder.state(tgt)
+            except Exception:  # noqa
+                continue
+            try:
+                if kind == "remove":
+                    op = ["remove", before, list(pos)]
+                    orig["remove_line"](tgt, ItemID(pos))
+                elif kind == "add":
+                    n = rng.randint(0, 3)
+                    op = ["add", before, list(pos), n]
+                    orig["add_line_before"](tgt, ItemID(pos), n)
+                elif kind == "set":
+                    src = rng.choice(lines)[1]
+                    if src.th is None:
+                        continue
+                    prevs = [rng.choice(lines)[0] for _ in range(rng.randint(0, 2))]
+                    op = ["set", before, list(pos), recorder.rcode("sorry"), [list(p) for p in prevs], recorder.th(src.th)]
+                    orig["set_line"](tgt, ItemID(pos), "sorry", prevs=[ItemID(p) for p in prevs], th=src.th)
+                else:
+                    other = rng.choice(lines)[0]
+                    op = ["replace", before, list(pos), list(other)]
+                    orig["replace_id"](tgt, ItemID(pos), ItemID(other))
+                res = ["ok", recorder.state(tgt)]
+            except Exception as e:  # noqa
+                # structural failures are the model's error answers; a refusal by the re-check that
+                # every primitive ends with (e.g. id != position since fix C02) is not modelled
+                if type(e).__name__ in ("ProofStateException", "IndexError", "AttributeError"):
+                    res = "error"
+                else:
+                    ctx.count("adversarial:refused-by-recheck:" + type(e).__name__)
+                    continue
+            out.append((op, res))
+    return out
+
+
 def correspondence(ctx, recorder, exe=None, id_cases=None):
     from kernel.proof import ItemID
     exe = exe or EXE
@@ -1398,6 +1463,14 @@ def correspondence(ctx, recorder, exe=None, id_cases=None):
             lines.append(sexp.dumps(["wf", m]))
             expect.append(norm(py_wf(m)))
             label.append("wf:mutated")
+    for op, res in getattr(recorder, "adversarial", []):
+        lines.append(sexp.dumps(op))
+        expect.append(norm(res))
+        label.append("adversarial:" + op[0])
+        if res != "error" and wf_rng.random() < 0.5:
+            lines.append(sexp.dumps(["wf", res[1]]))
+            expect.append(norm(py_wf(res[1])))
+            label.append("wf:adversarial")
     out = ctx.lean_driver(exe, lines) if lines else []
     if out is None or len(out) != len(lines):
         ctx.broken("correspondence:%s:driver" % ctx.prop.lower(), "model driver unavailable or answered %s lines for %d" % (None if out is None else len(out), len(lines)))
@@ -1409,6 +1482,8 @@ def correspondence(ctx, recorder, exe=None, id_cases=None):
             g = norm(sexp.loads(got))
         except Exception:  # noqa
             g = got
+        if exp == "error" and isinstance(g, list) and g and g[0] == "error":
+            g = "error"
         if g != exp:
             ndis += 1
             if ndis <= 3:
@@ -1434,9 +1509,9 @@ def run(ctx):
         faulthandler.register(signal.SIGUSR1)
     except Exception:  # noqa
         pass
-    proofs_ok = ctx.lean_props(["Holpy.C13.Props"], exes=[EXE])
+    proofs_ok = ctx.lean_props(PROPS, exes=[EXE])
     if ctx.tier == "thorough" and proofs_ok:
-        ctx.lean_check_modules(["Holpy.C13.Props"])
+        ctx.lean_check_modules(PROPS)
     ctx.findings = ctx.findings + [dict(f, property="C13") for f in FINDINGS if not any(g["key"] == f["key"] for g in ctx.findings)]
     ctx.coverage["trusted_base"] += [
         "property oracle harness/props/c13.py: invariants evaluated on the real ProofState objects with holpy's own checker "
@@ -1449,10 +1524,15 @@ def run(ctx):
         "copy isolation is checked on the real objects after every step; it is not a theorem (a pure model cannot exhibit sharing)"]
     recorder = Recorder(ctx.scale(3000, 40000), every=ctx.scale(5, 2))
     recorder.install(ctx)
+    ctx.adv_states = []
     try:
         oracle_streams(ctx, recorder)
     finally:
         recorder.uninstall()
+    try:
+        recorder.adversarial = adversarial_primitives(ctx, recorder)
+    except Exception as e:  # noqa
+        ctx.broken("correspondence:c13:adversarial", "could not run the adversarial primitive calls: %r" % e)
     correspondence(ctx, recorder)
 
 
